@@ -1,1 +1,297 @@
-(* placeholder, being written *)
+(* Properties/C21.v — Attribute and directory caches behave as bounded TTL LRU maps.
+   Only statements closed by [exact lemma], non-vacuity Examples and Print Assumptions live here.
+
+   What is proved (about Model/Cache.v, for every value type, every configuration and every history of
+   operations and clock values - the clock need not even be monotone):
+     invariants      access list duplicate-free, list = domain of the map, size <= capacity
+     C21_refines_*   the map+list representation returns, step by step, exactly what the abstract TTL-LRU map
+                     of Model/Cache.v (one recency-ordered association list) returns: Get results, Size,
+                     capacity, NegativeStats
+     C21_get_latest  whatever a Get returns is the last value the history stored for that key, not invalidated
+                     since, before its expiry
+     C21_lru_*       a store into a full cache evicts the last key of the access list and nothing else, and
+                     the access list is ordered by last use (so that key is the least recently used one)
+     C21_neg_*       InvalidateNegativeInDir removes exactly the negative entries selected by isChildOf, which
+                     is the parent rule on every key that starts with a slash; negative entries are observable
+                     only while negative caching is enabled
+   PARTIAL with respect to the property text, checked at run time only (harness/cmd/drive_cache):
+     - "returns a copy": aliasing is not expressible in the model; the driver mutates every value it passes in
+       or gets back and re-reads.
+     - the concurrent half: every method is one atomic step of the model.  Get's RLock -> Lock upgrade window
+       and interleavings in general are exercised by the C21race stream (under -race in the thorough tier). *)
+From Coq Require Import List NArith ZArith Bool Sorting.Sorted.
+From Verif Require Import Model.Cache Proofs.CacheProofs.
+Import ListNotations.
+Open Scope N_scope.
+
+Section C21.
+Context {A E : Type}.
+
+(* ---------------------------------------------------------------- invariants *)
+Theorem C21_attr_invariants : forall ttl mx (c : attr_cache A), attr_reachable ttl mx c ->
+  NoDup (l_list (ac_lru c)) /\ NoDup (map fst (l_map (ac_lru c))) /\
+  (forall k, In k (l_list (ac_lru c)) <-> In k (map fst (l_map (ac_lru c)))) /\
+  attr_size c <= attr_max_size c /\ 1 <= attr_max_size c.
+Proof. exact C21_attr_invariants_lemma. Qed.
+
+Theorem C21_dir_invariants : forall t me md (c : dir_cache E), dir_reachable t me md c ->
+  NoDup (l_list (dc_lru c)) /\ NoDup (map fst (l_map (dc_lru c))) /\
+  (forall k, In k (l_list (dc_lru c)) <-> In k (map fst (l_map (dc_lru c)))) /\
+  dir_size c <= dir_max_entries c /\ 1 <= dir_max_entries c.
+Proof. exact C21_dir_invariants_lemma. Qed.
+
+(* ---------------------------------------------------------------- refinement of the abstract TTL-LRU *)
+(* every history, every clock: same observations as the specification (whose InvalidateNegativeInDir uses
+   the code's isChildOf, pinned down by C21_neg_children_rule below) *)
+Theorem C21_refines_attr : forall ttl mx (h : list (N * attr_op A)),
+  attr_run_obs (new_attr_cache ttl mx) h = sa_run_obs is_child_of (sa_new ttl mx) h.
+Proof. exact C21_refines_attr_lemma. Qed.
+
+(* with the declarative rule "the parent of the path is the directory", for histories whose stored keys
+   start with a slash (the server only ever uses such keys) *)
+Theorem C21_refines_attr_parent_rule : forall ttl mx (h : list (N * attr_op A)), abs_keys h ->
+  attr_run_obs (new_attr_cache ttl mx) h = sa_run_obs direct_child_b (sa_new ttl mx) h.
+Proof. exact C21_refines_attr_parent_lemma. Qed.
+
+Theorem C21_refines_dir : forall t me md (h : list (N * dir_op E)),
+  dir_run_obs (new_dir_cache t me md) h = sd_run_obs (sd_new t me md) h.
+Proof. exact C21_refines_dir_lemma. Qed.
+
+(* ---------------------------------------------------------------- a hit is the most recent value stored *)
+(* last_store k = the last (value, expiry) the history stored for k, None once k was invalidated (by
+   Invalidate, InvalidateTree, InvalidateNegativeInDir, Clear or switching negative caching off); it depends
+   on the operations and the TTL settings only.  Whatever a Get returns is that value, strictly before its
+   expiry (AttrCache) / up to and including it (DirCache) - and otherwise nothing.  (That the value IS
+   returned unless evicted is the refinement above: the specification keeps every stored entry until a
+   capacity eviction or a Get that meets it expired.) *)
+Theorem C21_get_latest : forall ttl mx (h : list (N * attr_op A)) now k,
+  let r := ls_run (new_attr_cache ttl mx) (fun _ => None) h in
+  let c := fst r in let last_store := snd r in
+  c = fold_left attr_step h (new_attr_cache ttl mx) /\
+  match snd (attr_get now k c) with
+  | Hit a => exists exp, last_store k = Some (Some a, exp) /\ (Z.of_N now < exp)%Z
+  | NegHit => exists exp, last_store k = Some (None, exp) /\ (Z.of_N now < exp)%Z
+  | Miss => True
+  end.
+Proof. exact C21_get_latest_lemma. Qed.
+
+Theorem C21_dir_get_latest : forall t me md (h : list (N * dir_op E)) now k,
+  let r := dls_run (new_dir_cache t me md) (fun _ => None) h in
+  let c := fst r in let last_store := snd r in
+  c = fold_left dir_step h (new_dir_cache t me md) /\
+  match snd (dir_get now k c) with
+  | Some es => exists exp, last_store k = Some (es, exp) /\ (Z.of_N now <= exp)%Z
+  | None => True
+  end.
+Proof. exact C21_dir_get_latest_lemma. Qed.
+
+(* ---------------------------------------------------------------- eviction = least recently used *)
+Theorem C21_lru_put : forall ttl mx (c : attr_cache A) now k a, attr_reachable ttl mx c ->
+  entry_of c k = None -> attr_max_size c <= attr_size c ->
+  let victim := last (l_list (ac_lru c)) [] in
+  let c' := attr_put now k a c in
+  entry_of c victim <> None /\ entry_of c' victim = None /\
+  entry_of c' k = Some {| ce_val := Some a; ce_exp := (Z.of_N now + ac_ttl c)%Z; ce_el := true |} /\
+  (forall x, x <> k -> x <> victim -> entry_of c' x = entry_of c x) /\
+  l_list (ac_lru c') = k :: removelast (l_list (ac_lru c)) /\ attr_size c' = attr_size c.
+Proof. exact C21_lru_put_lemma. Qed.
+
+Theorem C21_lru_put_negative : forall ttl mx (c : attr_cache A) now k, attr_reachable ttl mx c ->
+  ac_negon c = true -> entry_of c k = None -> attr_max_size c <= attr_size c ->
+  let victim := last (l_list (ac_lru c)) [] in
+  let c' := attr_put_negative now k c in
+  entry_of c victim <> None /\ entry_of c' victim = None /\
+  entry_of c' k = Some {| ce_val := None; ce_exp := (Z.of_N now + ac_negttl c)%Z; ce_el := true |} /\
+  (forall x, x <> k -> x <> victim -> entry_of c' x = entry_of c x) /\
+  l_list (ac_lru c') = k :: removelast (l_list (ac_lru c)).
+Proof. exact C21_lru_put_negative_lemma. Qed.
+
+Theorem C21_lru_dir_put : forall t me md (c : dir_cache E) now k es, dir_reachable t me md c ->
+  N.of_nat (length es) <= dc_max_dir c -> dentry_of c k = None -> dir_max_entries c <= dir_size c ->
+  let victim := last (l_list (dc_lru c)) [] in
+  let c' := dir_put now k es c in
+  dentry_of c victim <> None /\ dentry_of c' victim = None /\
+  dentry_of c' k = Some {| ce_val := es; ce_exp := (Z.of_N now + dc_timeout c)%Z; ce_el := true |} /\
+  (forall x, x <> k -> x <> victim -> dentry_of c' x = dentry_of c x) /\
+  l_list (dc_lru c') = k :: removelast (l_list (dc_lru c)).
+Proof. exact C21_lru_dir_put_lemma. Qed.
+
+(* a Put that needs no room (key present, or cache not full) evicts nothing *)
+Theorem C21_put_keeps : forall ttl mx (c : attr_cache A) now k a, attr_reachable ttl mx c ->
+  (entry_of c k <> None \/ attr_size c < attr_max_size c) ->
+  forall x, x <> k -> entry_of (attr_put now k a c) x = entry_of c x.
+Proof. exact C21_put_keeps_lemma. Qed.
+
+(* what "last of the access list" means: with last_use k = the number of the last step of the history
+   that used k (stored it by Put / enabled PutNegative, or returned it from Get), the access list is in
+   strictly decreasing order of last_use; hence its last element is the least recently used cached key *)
+Theorem C21_lru_recency_attr : forall ttl mx (h : list (N * attr_op A)),
+  let r := attr_stamps (new_attr_cache ttl mx) 0 (fun _ => 0%nat) h in
+  let c := fst r in let last_use := snd r in
+  c = fold_left attr_step h (new_attr_cache ttl mx) /\
+  StronglySorted (by_stamp last_use) (l_list (ac_lru c)) /\
+  forall x, In x (l_list (ac_lru c)) -> x <> last (l_list (ac_lru c)) [] ->
+            (last_use (last (l_list (ac_lru c)) []) < last_use x)%nat.
+Proof. exact C21_lru_recency_lemma. Qed.
+
+Theorem C21_lru_recency_dir : forall t me md (h : list (N * dir_op E)),
+  let r := dir_stamps (new_dir_cache t me md) 0 (fun _ => 0%nat) h in
+  let c := fst r in let last_use := snd r in
+  c = fold_left dir_step h (new_dir_cache t me md) /\
+  StronglySorted (by_stamp last_use) (l_list (dc_lru c)) /\
+  forall x, In x (l_list (dc_lru c)) -> x <> last (l_list (dc_lru c)) [] ->
+            (last_use (last (l_list (dc_lru c)) []) < last_use x)%nat.
+Proof. exact C21_lru_recency_dir_lemma. Qed.
+
+(* a listing longer than maxDirSize is refused; whatever was cached (also for that path) stays *)
+Theorem C21_dir_put_refused : forall (c : dir_cache E) now k es,
+  dc_max_dir c < N.of_nat (length es) -> dir_put now k es c = c.
+Proof. exact C21_dir_put_refused_lemma. Qed.
+
+(* ---------------------------------------------------------------- negative entries *)
+(* InvalidateNegativeInDir d removes exactly the negative entries whose key isChildOf selects; all other
+   entries, the order of the access list and the configuration are untouched *)
+Theorem C21_neg_children : forall ttl mx (c : attr_cache A) d, attr_reachable ttl mx c ->
+  let c' := attr_invalidate_negative_in_dir d c in
+  (forall x, entry_of c' x =
+             match entry_of c x with
+             | Some e => if is_neg e && is_child_of x d then None else Some e
+             | None => None
+             end) /\
+  l_list (ac_lru c') =
+    filter (fun x => negb match entry_of c x with Some e => is_neg e && is_child_of x d | None => false end)
+           (l_list (ac_lru c)) /\
+  attr_max_size c' = attr_max_size c /\ ac_ttl c' = ac_ttl c /\ ac_negttl c' = ac_negttl c /\ ac_negon c' = ac_negon c.
+Proof. exact C21_neg_children_lemma. Qed.
+
+Theorem C21_neg_enabled : forall ttl mx (c : attr_cache A), attr_reachable ttl mx c -> ac_negon c = false ->
+  (forall k e, entry_of c k = Some e -> ce_val e <> None) /\
+  (forall now k, snd (attr_get now k c) <> NegHit) /\ attr_negative_stats c = 0 /\
+  (forall now k, attr_put_negative now k c = c).
+Proof. exact C21_neg_enabled_lemma. Qed.
+
+Theorem C21_tree : forall ttl mx (c : attr_cache A) d, attr_reachable ttl mx c ->
+  forall x, entry_of (attr_invalidate_tree d c) x = if in_tree x d then None else entry_of c x.
+Proof. exact C21_tree_lemma. Qed.
+End C21.
+
+(* ---------------------------------------------------------------- isChildOf on all byte strings *)
+(* the code's rule, literally: under "/" any path c::name with a non-empty slash-free name (the first byte c
+   is never inspected); under another d exactly d ++ "/" ++ name.  A directory given with a trailing slash
+   ("/a/") therefore has no children among clean paths ("/a/b" is not "/a/" ++ "/" ++ "b"). *)
+Theorem C21_neg_children_rule : forall p d, is_child_of p d = true <->
+  (d = [slash] /\ exists c name, p = c :: name /\ name <> [] /\ ~ In slash name) \/
+  (d <> [slash] /\ exists name, p = d ++ slash :: name /\ name <> [] /\ ~ In slash name).
+Proof. exact is_child_of_spec. Qed.
+
+(* the declarative rule: p = (d ++ "/", or "/" for the root) ++ one non-empty slash-free name *)
+Theorem C21_direct_child_rule : forall p d, direct_child_b p d = true <-> direct_child p d.
+Proof. exact direct_child_b_spec. Qed.
+
+(* isChildOf is the declarative rule on every path that starts with a slash, and in general deviates from it
+   exactly by [root_quirk]: a path NOT starting with a slash counts as a child of "/" *)
+Theorem C21_child_is_parent_rule_abs : forall p d, is_abs p = true -> is_child_of p d = direct_child_b p d.
+Proof. exact is_child_of_abs. Qed.
+Theorem C21_child_is_parent_rule_or_quirk : forall p d, is_child_of p d = direct_child_b p d || root_quirk p d.
+Proof. exact is_child_of_full. Qed.
+
+Theorem C21_tree_rule : forall p d, in_tree p d = true <->
+  p = d \/ exists rest, p = trim_suffix_slash d ++ slash :: rest.
+Proof. exact in_tree_spec. Qed.
+
+(* ---------------------------------------------------------------- why PutNegative must check under the write lock *)
+(* The code before the repair read the switch first and stored in a second atomic step.  With a
+   ConfigureNegativeCaching(false) between the two halves a negative entry exists, and is served, while
+   negative caching is disabled.  (Observed on the real code before the repair: 89 of 200000 barrier-released
+   rounds.)  The current, atomic [attr_put_negative] satisfies C21_neg_enabled. *)
+Theorem C21_put_negative_split_refuted :
+  exists (c : attr_cache N) now k, attr_reachable (5 * sec)%Z 10 c /\
+    let rd := attr_put_negative_read_old c in                       (* goroutine 1: read under RLock *)
+    let c1 := attr_configure_negative false 0 c in                  (* goroutine 2: switch off + purge *)
+    let c2 := attr_put_negative_commit_old now k rd c1 in           (* goroutine 1: store under Lock *)
+    ac_negon c2 = false /\ snd (attr_get now k c2) = NegHit /\ attr_negative_stats c2 = 1.
+Proof.
+  exists (fold_left attr_step [(0, AConfigureNegative true 0%Z)] (new_attr_cache (5 * sec)%Z 10)), 7, [47; 97].
+  split; [eexists; reflexivity | vm_compute; repeat split].
+Qed.
+
+(* ---------------------------------------------------------------- non-vacuity *)
+Definition ex_a : path := [47; 97].            (* "/a"   *)
+Definition ex_ab : path := [47; 97; 98].       (* "/ab"  *)
+Definition ex_a_b : path := [47; 97; 47; 98].  (* "/a/b" *)
+Definition ex_b : path := [47; 98].            (* "/b"   *)
+
+(* a reachable full cache with a negative entry, an expired entry and a reordered access list:
+   the hypotheses of C21_lru_put / C21_neg_children / C21_lru_recency are met non-trivially *)
+Definition ex_hist : list (N * attr_op N) :=
+  [(0, AConfigureNegative true 0%Z); (1, APut ex_a 10); (2, APutNegative ex_a_b); (3, APut ex_ab 30);
+   (4, AGet ex_a); (5, APutNegative ex_b)].
+Example C21_nontrivial_state :
+  let c := fold_left attr_step ex_hist (new_attr_cache 50 3) in
+  attr_reachable 50 3 c /\ attr_size c = 3 /\ attr_max_size c = 3 /\ attr_negative_stats c = 1 /\
+  l_list (ac_lru c) = [ex_b; ex_a; ex_ab] /\ entry_of c ex_a_b = None /\
+  snd (attr_get 60 ex_a c) = Miss /\ snd (attr_get 6 ex_a c) = Hit 10 /\ snd (attr_get 6 ex_b c) = NegHit.
+Proof. split; [eexists; reflexivity|]. vm_compute. repeat split. Qed.
+
+(* C21_lru_put's hypotheses hold in that state for a fresh key, and the victim is "/ab" (least recently used) *)
+Example C21_lru_put_applies :
+  let c := fold_left attr_step ex_hist (new_attr_cache 50 3) in
+  entry_of c [47; 122] = None /\ attr_max_size c <= attr_size c /\ last (l_list (ac_lru c)) [] = ex_ab.
+Proof. vm_compute. repeat split; discriminate. Qed.
+
+(* C21_neg_children removes something: "/b" is a negative direct child of "/", "/a" is positive, and "/a/b"
+   under "/a" *)
+Example C21_neg_children_applies :
+  let c := fold_left attr_step ex_hist (new_attr_cache 50 3) in
+  entry_of (attr_invalidate_negative_in_dir [47] c) ex_b = None /\
+  entry_of (attr_invalidate_negative_in_dir [47] c) ex_a <> None /\
+  entry_of (attr_invalidate_negative_in_dir ex_a c) ex_b <> None.
+Proof. vm_compute. repeat split; discriminate. Qed.
+
+(* C21_neg_enabled's hypothesis: a reachable state with the switch off after negatives had been stored *)
+Example C21_neg_enabled_applies :
+  let c := fold_left attr_step (ex_hist ++ [(6, AConfigureNegative false 0%Z)]) (new_attr_cache 50 3) in
+  attr_reachable 50 3 c /\ ac_negon c = false /\ attr_size c = 2 /\ snd (attr_get 6 ex_b c) = Miss.
+Proof. split; [eexists; reflexivity|]. vm_compute. repeat split. Qed.
+
+(* abs_keys is met by that history; the two child rules differ outside it *)
+Example C21_abs_keys_applies : abs_keys ex_hist.
+Proof. repeat constructor; intros k; cbn; intros [= <-]; reflexivity. Qed.
+Example C21_root_quirk_witness :
+  is_child_of [120; 97; 98] [47] = true /\ direct_child_b [120; 97; 98] [47] = false /\   (* "xab" under "/" *)
+  is_child_of ex_a_b (ex_a ++ [47]) = false /\ is_child_of ex_a_b ex_a = true /\          (* "/a/" vs "/a" *)
+  is_child_of ex_ab ex_a = false /\ is_child_of ex_a [47] = true /\ is_child_of [47] [47] = false.
+Proof. vm_compute. repeat split. Qed.
+
+(* a DirCache state past its capacity history: eviction, expiry boundary (valid AT validUntil), refusal *)
+Example C21_dir_nontrivial :
+  let h : list (N * dir_op N) :=
+    [(0, DPut ex_a [1; 2]); (1, DPut ex_b [3]); (2, DGet ex_a); (3, DPut ex_ab [4]); (4, DPut ex_ab [5; 6; 7])] in
+  let c := fold_left dir_step h (new_dir_cache 10 2 2) in
+  dir_reachable 10 2 2 c /\ dir_size c = 2 /\ l_list (dc_lru c) = [ex_ab; ex_a] /\
+  snd (dir_get 10 ex_a c) = Some [1; 2] /\ snd (dir_get 11 ex_a c) = None /\ snd (dir_get 5 ex_ab c) = Some [4].
+Proof. split; [eexists; reflexivity|]. vm_compute. repeat split. Qed.
+
+Print Assumptions C21_attr_invariants.
+Print Assumptions C21_dir_invariants.
+Print Assumptions C21_refines_attr.
+Print Assumptions C21_refines_attr_parent_rule.
+Print Assumptions C21_refines_dir.
+Print Assumptions C21_get_latest.
+Print Assumptions C21_dir_get_latest.
+Print Assumptions C21_lru_put.
+Print Assumptions C21_lru_put_negative.
+Print Assumptions C21_lru_dir_put.
+Print Assumptions C21_put_keeps.
+Print Assumptions C21_lru_recency_attr.
+Print Assumptions C21_lru_recency_dir.
+Print Assumptions C21_dir_put_refused.
+Print Assumptions C21_neg_children.
+Print Assumptions C21_neg_enabled.
+Print Assumptions C21_tree.
+Print Assumptions C21_neg_children_rule.
+Print Assumptions C21_direct_child_rule.
+Print Assumptions C21_child_is_parent_rule_abs.
+Print Assumptions C21_child_is_parent_rule_or_quirk.
+Print Assumptions C21_tree_rule.
+Print Assumptions C21_put_negative_split_refuted.
